@@ -172,7 +172,7 @@ pub fn draw(rng: &mut Rng, src: &[u8], donors: &[Vec<u8>]) -> Mutation {
             }
             if !nums.is_empty() {
                 let at = *rng.pick(&nums);
-                let text = rng.pick(&["0x", "0x_", "0b_", "0b__", "0o_", "0b", "0o", "1_", "0x1_", "1__0", "0x_1", "0b2", "0o8", "0xg", "1x", "00", "0_0"]).to_string();
+                let text = rng.pick(&["0x", "0x_", "0b_", "0b__", "0o_", "0b", "0o", "1_", "0x1_", "1__0", "0x_1", "0b2", "0o8", "0xg", "1x", "00", "0_0", "0XFF", "0B101", "0O17", "0Xff", "0xab[2:4]", "0xab[2:3]", "0xab[1:3]", "0xab[0:2]", "0xab[3:3]", "0xab[0:1]", "5[1:4]"]).to_string();
                 return Mutation::Transplant { at, text };
             }
         }
